@@ -311,6 +311,18 @@ func (hr *hostsRun) history() {
 		packet.VerifYield.Store(&yf)
 		defer packet.VerifYield.Store(nil)
 	}
+	// one history in eight knows a station by an EUI-64 hardware address (8 bytes, as net.ParseMAC accepts and IP over
+	// InfiniBand / FireWire interfaces report): it never sends Ethernet frames, the control API is told about it. Its first
+	// six bytes are those of station 1, which is a different station
+	apiMAC := func(mac refdec.MAC) net.HardwareAddr {
+		if hr.idx%8 == 5 && mac == uMACs[1] && !hr.inject {
+			return append(net.HardwareAddr(mac[:]), 0x00, 0x01)
+		}
+		return net.HardwareAddr(mac[:])
+	}
+	if hr.idx%8 == 5 && !hr.inject {
+		c.Obs("histories_with_an_eight_byte_hardware_address", 1)
+	}
 	for step, o := range hr.ops {
 		var want []model.Group
 		before := m.Triples()
@@ -404,16 +416,16 @@ func (hr *hostsRun) history() {
 				}
 				m.UpdateName(ip, o.S, uNames[o.N])
 			case "capture":
-				err := s.Capture(net.HardwareAddr(mac[:]))
-				if ok := m.Capture(model.MAC(mac[:])); ok != (err == nil) && !hr.inject {
+				err := s.Capture(apiMAC(mac))
+				if ok := m.Capture(model.MAC(apiMAC(mac))); ok != (err == nil) && !hr.inject {
 					c.ViolP("C04", "model:capture-result", fmt.Sprintf("Capture(%s) error=%v, model ok=%v", uMACName[o.M], err, ok), cs(step))
 				}
 			case "release":
-				s.Release(net.HardwareAddr(mac[:]))
-				m.Release(model.MAC(mac[:]))
+				s.Release(apiMAC(mac))
+				m.Release(model.MAC(apiMAC(mac)))
 			case "offer":
-				s.SetDHCPv4IPOffer(net.HardwareAddr(mac[:]), ip, uName("dhcp4", o.N))
-				m.SetOffer(model.MAC(mac[:]), ip)
+				s.SetDHCPv4IPOffer(apiMAC(mac), ip, uName("dhcp4", o.N))
+				m.SetOffer(model.MAC(apiMAC(mac)), ip)
 			case "latepass":
 				// one ageing pass that runs late - its clock is past the offline (and perhaps the purge) deadline of hosts that
 				// are still online: they go offline in this pass, with their notification, and are deleted by a later one
